@@ -24,7 +24,7 @@ CHECKS = {
 CHECKS["C02"] = dict(
     level="exploration",
     rule="rapid-generated two-party scripts (client send / target send / concurrent both / client half-close / target half-close / sync) over real loopback TCP "
-         "through the real StreamServe+StreamHandler; generated cipher, address form (IPv4, IPv6, hostname, IP-literal domain), first-chunk layout, chunk plans "
+         "through the real StreamServe+StreamHandler, optionally ending with a slow-target phase (the target half-closes, stays deaf while the client uploads 0.3-1 MiB and half-closes, and resumes once the proxy is done); generated cipher, address form (IPv4, IPv6, hostname, IP-literal domain), first-chunk layout, chunk plans "
          "(1..16383 incl. boundaries), TCP write segmentation and pacing, 0..120 KB (thorough 2 MiB) per send. Non-trivial = >=2 chunks in some direction, or a "
          "half-close followed by traffic in the opposite direction, or an address split across chunks / coalesced with data. Distinct = canonical case JSON.",
     assumptions=["loopback only: no loss or reordering below TCP", "interleavings are those the kernel and scheduler produce under generated pacing"],
@@ -80,7 +80,8 @@ CHECKS["C06"] = dict(
          "random bytes of length 0..70000 (biased to 49/50/51 and salt+18 boundaries), valid streams truncated at any offset, single bit flips anywhere in the first 130 bytes, "
          "foreign-key streams, exact replays (cache on), reflected server salts, bad address type, corrupted address chunk, incomplete address; key lists of 1..12 (thorough 100) keys, "
          "all ciphers; client stays open / FINs at a generated instant / keeps trickling bytes; generated write segmentation with fake-time gaps. Deadlines compared with ==. "
-         "(Real) batches of up to 32 concurrent probes over loopback TCP with a 250 ms timeout, plus post-dial corruption against a target that never closes. "
+         "(Real) batches of up to 32 concurrent probes over loopback TCP with a 250 ms timeout, plus post-dial corruption (length block / length tag / payload / payload tag of a mid-relay chunk, more client data following) "
+         "against a target that never closes and against an ordinary target that closes when the proxy half-closes. "
          "Non-trivial = probe derived from a valid stream (truncate/flip/replay/reflect/foreign key/invalid-after-auth), or random bytes of length 48..52 or >66. "
          "Complete valid requests produced by a mutation (e.g. a flip beyond the header) are classified by the reference codec and not judged.",
     assumptions=["fake-time engine runs under go1.26.8 timer semantics (asynctimerchan=0)", "real-socket upper bounds are reported only if they reproduce 3 times in isolation"],
@@ -125,7 +126,7 @@ CHECKS["C17"] = dict(
          "tcpOpen / tcpAuth / tcpClose / udpAdd / udpRemove / advance(0..2 h) / scrape; oracle = ledger of open intervals per (IP, key), checked at every scrape (1 us per reported segment), "
          "per-location total = per-key total, counters monotone. Non-trivial = a scrape inside >=2 overlapping tunnels of one (IP,key), or close -> scrape -> reopen. "
          "(Concurrent) generated workloads under the real clock: 2..12 worker goroutines opening/authenticating/closing tunnels for client pools of size 1..8 or all-new clients, fake location database with "
-         "0..50 us latency, 1..4 goroutines gathering continuously; process must stay alive, Gather never errors, counters never decrease, final totals lie in the interval computed from the workers' timestamps. "
+         "0..50 us latency, 1..4 goroutines gathering continuously, and burst workloads in which all workers are one client and start each round together; process must stay alive, Gather never errors, counters never decrease, final totals lie in the interval computed from the workers' timestamps. "
          "Every concurrent workload counts as non-trivial; it is journalled before it runs so that a process death yields its replay file.",
     assumptions=["fake-time engine: Go 1.26 timer semantics", "schedules are sampled, not enumerated"],
     units=[unit("props26", ["Ledger"], "C17"), unit("props", ["Concurrent"], "C17", crash_is_violation=True, wedge_is_violation=True)],
@@ -133,7 +134,7 @@ CHECKS["C17"] = dict(
 
 CHECKS["C12"] = dict(
     level="exploration",
-    rule="rapid-generated operation sequences on one ListenerManager address with 1..6 handles, for stream and for packet listeners on real sockets: acquire / close(handle) / call(handle) "
+    rule="rapid-generated operation sequences on one ListenerManager address with 1..6 handles, for stream and for packet listeners on real sockets: acquire / acquire while another socket holds the address (must fail cleanly) / close(handle) / call(handle) "
          "(an accept or read left pending in its own goroutine) / send 1..3 connections or datagrams carrying unique tokens / settle; each case is executed 4 times because deliveries racing with closes are "
          "schedule-dependent. Invariants over the history: a token is delivered at most once, and exactly once while an open handle has a call pending; never to a call started after that handle's Close returned; "
          "pending and later calls on a closed handle return net.ErrClosed; after the last close the address can be bound again, no goroutine of the shared listener is left, and connections accepted by the socket "
@@ -145,7 +146,8 @@ CHECKS["C12"] = dict(
 CHECKS["C13"] = dict(
     level="exploration",
     rule="rapid-generated plans for 2..12 goroutines, each a list of 1..8 ListenStream(a) / ListenPacket(a) / Close(own handle) operations over 1..3 addresses on one ListenerManager (real sockets), "
-         "biased to listen-then-close so that the last close of an address races with listens on it; every case is repeated 50 times with a fresh manager and fresh ports. "
+         "biased to listen-then-close so that the last close of an address races with listens on it; every fourth case starts each repetition with listens on an address another socket holds (they must fail and leave the manager usable); "
+         "every case is repeated 50 times with a fresh manager and fresh ports. "
          "Oracle: all calls return within a 5 s watchdog and succeed (an 'address already in use' on a socket this process itself still holds means the manager lost track of it), and a final sequential "
          "listen+close on every address succeeds. On a watchdog hit the signature is derived from the goroutines blocked on a mutex in listeners.go. "
          "Non-trivial = at least two goroutines operate on the same address and kind. Distinct = canonical case JSON.",
@@ -188,11 +190,11 @@ CHECKS["C11"] = dict(
 
 CHECKS["C14"] = dict(
     level="exploration",
-    rule="(Deadlines) rapid-generated histories of write(DNS|non-DNS) / reply(from port 53|other) / pause on one NAT entry inside the in-package executor (package service) whose fake outbound socket records every "
+    rule="(Deadlines) rapid-generated histories of write(DNS|non-DNS, the outbound send succeeding or failing) / reply(from port 53|other) / pause on one NAT entry inside the in-package executor (package service) whose fake outbound socket records every "
          "SetReadDeadline; timeouts from {1 ms .. 5 min} incl. 16999/17000/17001 ms. After every write the deadline is >= start-of-write + its timeout (17 s for port 53) and never moves earlier; the only permitted "
          "shortening is the fast close (exactly one write so far, it was DNS, first response from a port-53 sender), which must then happen; on expiry: removed once, socket closed, table empty. "
          "(Lifecycle, Long) batches of 4..24 (thorough 64) concurrent clients against the real PacketHandler on real sockets with NAT timeouts of 300-600 ms and scripts plain / dns-single / dns-multi / mixed / "
-         "dns-then-plain / plain-reply-from-53 / recreate: alive before last-send + timeout (client-side instant, sound), removed and outbound port released within +2 s, single-DNS associations close right after the "
+         "dns-then-plain / plain-reply-from-53 / recreate / unsendable (first datagram cannot be sent, client stays idle): alive before last-send + timeout (client-side instant, sound), removed and outbound port released within +2 s, single-DNS associations close right after the "
          "response, DNS associations still alive at +1.5 s (Long: +16.5 s) despite the short timeout, shutdown reclaims everything (goroutines/sockets back to baseline). "
          "Non-trivial = history with both DNS and non-DNS writes or a fast-close candidate (Deadlines); every batch (Lifecycle).",
     assumptions=["the fake outbound socket does not follow the wall clock: only an already-due deadline expires it", "real-time upper bounds are 2-3 s"],
@@ -203,7 +205,7 @@ CHECKS["C15"] = dict(
     level="exploration",
     rule="rapid-generated cases of 1..24 concurrent TCP connections through the real StreamServe + StreamHandler over loopback, each with a generated outcome: complete relay (either side closing first), "
          "random bytes, client replay, reflected server salt, bad address type, connect failure, client reset, target reset, corrupt chunk mid-relay; 0..70000 bytes each way, chunk sizes 1..16383, "
-         "all ciphers, replay cache on/off. A recording ServiceMetrics (also feeding the real Prometheus collector in a pedantic registry) gives the per-connection call sequence, compared with byte counts "
+         "all ciphers, replay cache on/off; a reflected handshake may be presented twice. A recording ServiceMetrics (also feeding the real Prometheus collector in a pedantic registry) gives the per-connection call sequence, compared with byte counts "
          "measured at the raw client and target sockets: exactly one close, last; authentication reported iff the reference says the stream authenticates, with an id of that material; a probe report iff "
          "authentication failed, carrying the bytes the client sent; status in the admissible set of the scenario; four counters equal to the wire for completed connections and never above it otherwise; "
          "gathered opened/closed/data_bytes consistent with the call log. Non-trivial = any scenario other than a plain small relay, or >16 KB transferred.",
